@@ -15,6 +15,30 @@ CLAIMED = {
    text="Bounded model checking: the three visibility kernels and the retarded/advanced clustering kernels are executed symbolically from the current .pyx. For every real-valued series (and every NaN pattern for the missing-value kernel) up to the bound z3 shows that the adjacency equals the geometric criterion written independently, is symmetric with empty diagonal, is mirrored by time reversal and unchanged by positive affine maps; the clustering kernels equal their triangle-count definitions for every graph up to the bound.",
    note="Bounds: n<=6 (8 thorough) samples with integer timings, n<=4 (5) with symbolic increasing timings, graphs n<=5 (6). Exact rational arithmetic as the statement prescribes; float32 slope rounding outside. Translator validated against the compiled extension each run.",
    ref="DESIGN.md §3 C14"),
+ "C03": dict(
+   engine="K",
+   technique="bounded symbolic execution of the real kernels (own guarded-merging interpreter over Cython's parse tree of the current numerics.pyx) + z3; sat models replayed on the real build through the public API",
+   text="Bounded model checking of the library's own measure code: the cliquishness kernels are executed symbolically over adjacency bits and shown by z3 to equal the clique-count definition for every graph up to the bound; the Newman chunk kernel equals its defining sum for every graph and real potential matrix.",
+   note='Bounds: cliquishness-4 n<=5 (6 thorough), cliquishness-5 n<=4 (5 thorough), Newman sums n<=4 (5). Exact reals, C widths erased. Measures forwarded to igraph/ARPACK are outside (not pyunicorn code). Translator validated against the compiled extension each run.',
+   ref="DESIGN.md §3 C03"),
+ "C04": dict(
+   engine="K",
+   technique="bounded symbolic execution of the real kernels (own guarded-merging interpreter over Cython's parse tree of the current numerics.pyx) + z3; sat models replayed on the real build through the public API",
+   text='Bounded model checking: for fully symbolic inputs each kernel is executed on a network and on its renumbering by every adjacent transposition (which generate all permutations) and z3 shows the results are the correspondingly permuted values.',
+   note='Bounds: cliquishness-4 n<=4 (5), cross kernels n<=4 with all disjoint list pairs, n.s.i. betweenness kernel on all labelled graphs n<=4 (5) with real weights. igraph/ARPACK measures outside.',
+   ref="DESIGN.md §3 C04"),
+ "C11": dict(
+   engine="K",
+   technique="bounded symbolic execution of the real kernels (own guarded-merging interpreter over Cython's parse tree of the current numerics.pyx) + z3; sat models replayed on the real build through the public API",
+   text='Bounded model checking: the compiled cross kernels (plain and n.s.i.) are executed symbolically over adjacency bits and real weights for every ordered pair of disjoint node lists up to the bound, in ascending and shuffled list order, and z3 shows equality with the sub-block definitions.',
+   note='Bounds: n<=4 all pairs, n=5 sampled (all in thorough). 0/0 n.s.i. transitivity (no cross link) outside. cross/internal betweenness (igraph) outside.',
+   ref="DESIGN.md §3 C11"),
+ "C19": dict(
+   engine="K",
+   technique="bounded symbolic execution of the real kernels (own guarded-merging interpreter over Cython's parse tree of the current numerics.pyx) + z3; sat models replayed on the real build through the public API",
+   text='Bounded model checking of what distribution relies on: for every graph and every contiguous chunk [s,e) the chunk kernels return exactly the slice of the serial defining sum, and the n.s.i. betweenness kernel is additive over every split of the target range (all labelled graphs up to the bound, symbolic weights and source masks).',
+   note='Bounds: chunk kernels n<=4 (5), target splits on all graphs n<=4 (5). Real MPI transport/pickling outside; master-block arithmetic and protocol are separate obligations once present in evidence.',
+   ref="DESIGN.md §3 C19"),
 }
 NA_DEFAULT = "check not built yet in this round (see DESIGN.md §6 for the planned obligation)"
 def main():
